@@ -3,6 +3,7 @@ import MosnVerif.Lemmas.Snapshot
 import MosnVerif.Lemmas.ClusterPub
 import MosnVerif.Lemmas.HostOps
 import MosnVerif.Lemmas.PubVal
+import MosnVerif.Lemmas.PoolLookup
 /-!
 # C05 — load balancers return only current, healthy members (property theorems only)
 
@@ -342,5 +343,115 @@ theorem last_wins_keeps_stale_object :
     dedupFirst [] ([⟨1, 2, 5⟩] ++ [⟨1, 1, 1⟩, ⟨3, 7, 2⟩]) = [⟨1, 2, 5⟩, ⟨3, 7, 2⟩] := by decide
 
 end HostObjects
+
+/-! ## the request path: which host travels with the connection pool
+
+`Gen/PoolLookup.lean` is regenerated from `cluster_manager.go`: the data flow of `getActiveConnectionPool` (what every
+`return` hands back and where it was last assigned, the key of every pool-map access, the host each factory call gets, the
+slot indices of the parallel arrays `pools` / `hosts` in the first loop and in the poll loop, the bounds) and the map
+selection of `connPool.load`. `Model/PoolLookup.lookup` interprets that flow over pool maps whose pools OUTLIVE host-set
+replacements and keep the host object they were created with (`Pool.created` = `pool.Host()`). `q.lb` lists what the
+`ChooseHost` calls of this lookup returned; `(lookup …).ret` is the (pool, host) pair `ConnPoolForCluster` hands to the
+proxy; `(lookup …).iter` lists, per first-loop iteration, the pool that iteration loaded / created and the host it chose.
+`Keyed σ`: every pool sits under the address of its creation host (true initially, kept by every operation). -/
+section RequestPath
+open MosnVerif.Model.PoolLookup MosnVerif.Gen.PoolLookup
+open MosnVerif.Model.HostOps (H)
+
+/-- **pool_lookup_flow_discipline**: the regenerated `getActiveConnectionPool` keys the pool map by the address of the host
+chosen in this iteration, creates pools with that host, returns a ready pool of the first loop with that host, stores a
+pool that is not ready into slot `i` of `pools` and that host into slot `i` of `hosts`, and the poll loop tests and returns
+slot `i` of BOTH arrays. -/
+theorem pool_lookup_flow_discipline : flowOk flow = true := by decide
+
+/-- **returned_host_is_chosen**: for EVERY flow with that discipline, pool-map state, readiness script, scope, query: the
+host handed back is one of the objects `ChooseHost` returned during THIS call (call number `k` < `try`). -/
+theorem returned_host_is_chosen (fl : Flow) (hf : flowOk fl = true) (env : Env) (σ : St) (hk : Keyed σ) (q : Query)
+    (p : Pool) (x : H) (hr : (lookup fl env σ q).ret = (some p, some x)) :
+    ∃ k, k < min q.hostNum fl.maxHosts ∧ q.lb[k]? = some (some x) := by
+  have S := lookup_spec fl hf env σ q hk
+  exact (S.2.1 (p, x) (S.2.2.1 p x hr)).2
+
+/-- **returned_pair_consistent**: the returned pool was created for the returned host's address, the pair is the (pool,
+host) pair of ONE first-loop iteration (same loop index), and a pool is returned iff a host is. -/
+theorem returned_pair_consistent (fl : Flow) (hf : flowOk fl = true) (env : Env) (σ : St) (hk : Keyed σ) (q : Query) :
+    (∀ p x, (lookup fl env σ q).ret = (some p, some x) → p.created.a = x.a ∧ (p, x) ∈ (lookup fl env σ q).iter) ∧
+    ((lookup fl env σ q).ret.1 = none ↔ (lookup fl env σ q).ret.2 = none) ∧
+    Keyed (lookup fl env σ q).st := by
+  have S := lookup_spec fl hf env σ q hk
+  exact ⟨fun p x hr => ⟨(S.2.1 (p, x) (S.2.2.1 p x hr)).1, S.2.2.1 p x hr⟩, S.2.2.2, S.1⟩
+
+/-- **stale_pool_host_never_returned**: along EVERY history of host-set replacements (any lists, any cluster), lookups (any
+balancer answers, any readiness), pool shutdowns, TLS changes — from the empty pool maps — every lookup that returns
+`(p, x)`: `x` was chosen in this lookup, `p` is a pool for `x`'s address, and when the balancer only returns members of
+the cluster's current set (`member`, `lb_returns_current_object`), `x` is a member of the current set — so a pool's own host
+object that is no longer in the set (stale after a replacement keeping the address, or another cluster's) is never
+handed back. -/
+theorem stale_pool_host_never_returned (fl : Flow) (hf : flowOk fl = true) (env : Env) (ops : List MosnVerif.Model.PoolLookup.Op) :
+    ∀ ev ∈ runHist fl env {} ops, ∀ p x, ev.2.2.ret = (some p, some x) →
+      p.created.a = x.a ∧
+      (∃ k, k < min ev.2.1.hostNum fl.maxHosts ∧ ev.2.1.lb[k]? = some (some x)) ∧
+      ((∀ o ∈ ev.2.1.lb, ∀ h, o = some h → h ∈ ev.1) → x ∈ ev.1 ∧ (p.created ∉ ev.1 → x ≠ p.created)) := by
+  intro ev hev p x hr
+  have G := runHist_good fl hf env ops {} keyed_init ev hev
+  have hp := G.1 (p, x) (G.2.1 p x hr)
+  refine ⟨hp.1, hp.2, ?_⟩
+  intro hlb
+  obtain ⟨k, _, hk⟩ := hp.2
+  have hx : x ∈ ev.1 := hlb (some x) (List.mem_of_getElem? hk) x rfl
+  exact ⟨hx, fun hn he => hn (he ▸ hx)⟩
+
+/-- **returned_host_current_healthy**: the balancer instantiated — every policy, state and draw per call — over the list
+published after ANY update history (`published_exact`): the host the request path hands back is the current object of its
+address in the abstract map, healthy, and the pool is one for its address. -/
+theorem returned_host_current_healthy (fl : Flow) (hf : flowOk fl = true) (env : Env) (σ : St) (hk : Keyed σ)
+    (ops : List MosnVerif.Model.HostOps.Op) (c0 : List H) (m : Nat → Option H) (hrep : MosnVerif.Model.HostOps.Rep c0 m)
+    (hosts : MosnVerif.Model.LB.Hosts) (hl : hosts.length = (MosnVerif.Model.HostOps.runOps c0 ops).length)
+    (pol : Policy) (choice : Nat) (st : Nat → LBState) (cl : Nat → Call) (q : Query)
+    (hq : ∀ k o, q.lb[k]? = some o →
+      o = ((choose pol choice hosts (st k) (cl k)).result).bind (fun i => (MosnVerif.Model.HostOps.runOps c0 ops)[i]?))
+    (p : Pool) (x : H) (hr : (lookup fl env σ q).ret = (some p, some x)) :
+    ∃ i, (MosnVerif.Model.HostOps.runOps c0 ops)[i]? = some x ∧ hAt hosts i = true ∧
+      MosnVerif.Model.HostOps.absRun m ops x.a = some x ∧ p.created.a = x.a := by
+  obtain ⟨k, _, hk'⟩ := returned_host_is_chosen fl hf env σ hk q p x hr
+  have hb := hq k (some x) hk'
+  cases hres : (choose pol choice hosts (st k) (cl k)).result with
+  | none => simp [hres] at hb
+  | some i =>
+    simp only [hres, Option.bind_some] at hb
+    obtain ⟨o, ho, habs⟩ := lb_returns_current_object ops c0 m hrep hosts hl pol choice (st k) (cl k) i hres
+    have : o = x := by rw [ho] at hb; exact (Option.some.inj hb).symm
+    subst this
+    exact ⟨i, ho, healthy_result pol choice hosts (st k) (cl k) i hres, habs,
+      ((returned_pair_consistent fl hf env σ hk q).1 p o hr).1⟩
+
+-- non-vacuity: address 1 is replaced by a new object (marker 2, weight 5) while its pool (created with marker 1) lives on;
+-- the second lookup re-uses pool 0 and hands back the NEW object
+example : (runHist flow {} {} [.setHosts 0 [⟨1, 1, 1⟩], .lookup ⟨0, 1, [some ⟨1, 1, 1⟩]⟩, .setHosts 0 [⟨1, 2, 5⟩],
+    .lookup ⟨0, 1, [some ⟨1, 2, 5⟩]⟩]).map (fun e => e.2.2.ret) =
+    [(some ⟨0, ⟨1, 1, 1⟩, 0⟩, some ⟨1, 1, 1⟩), (some ⟨0, ⟨1, 1, 1⟩, 0⟩, some ⟨1, 2, 5⟩)] := by decide
+-- two hosts, neither pool ready at first; the pool of the SECOND slot becomes ready first: slot 1 of both arrays is returned
+example : (lookup flow {} { nr := [(1, 3), (2, 1)] } ⟨0, 2, [some ⟨1, 1, 1⟩, some ⟨2, 2, 1⟩]⟩).ret =
+    (some ⟨1, ⟨2, 2, 1⟩, 0⟩, some ⟨2, 2, 1⟩) := by decide
+example : Keyed (lookup flow {} {} ⟨0, 1, [some ⟨1, 1, 1⟩]⟩).st :=
+  (returned_pair_consistent flow pool_lookup_flow_discipline {} {} keyed_init _).2.2
+
+/-- **pool_host_return_is_stale** (negative witnesses, machine-checked): (1) returning the pool's own host instead of the
+chosen one violates the discipline, and after a replacement that keeps the address the lookup hands back the REPLACED
+object; (2) pairing `pools[i]` with `hosts[0]` in the poll loop hands back a pool for address 2 with the host of address 1;
+(3) keying the pool map by host name makes two hosts of one name share a pool: pool for address 1, host of address 2. -/
+theorem pool_host_return_is_stale :
+    flowOk (returnsPoolHost flow) = false ∧
+    (runHist (returnsPoolHost flow) {} {} [.setHosts 0 [⟨1, 1, 1⟩], .lookup ⟨0, 1, [some ⟨1, 1, 1⟩]⟩, .setHosts 0 [⟨1, 2, 5⟩],
+      .lookup ⟨0, 1, [some ⟨1, 2, 5⟩]⟩]).map (fun e => (e.1, e.2.2.ret.2)) =
+      [([⟨1, 1, 1⟩], some ⟨1, 1, 1⟩), ([⟨1, 2, 5⟩], some ⟨1, 1, 1⟩)] ∧
+    flowOk (pollReturnsSlot0 flow) = false ∧
+    (lookup (pollReturnsSlot0 flow) {} { nr := [(1, 3), (2, 1)] } ⟨0, 2, [some ⟨1, 1, 1⟩, some ⟨2, 2, 1⟩]⟩).ret =
+      (some ⟨1, ⟨2, 2, 1⟩, 0⟩, some ⟨1, 1, 1⟩) ∧
+    flowOk (keyedByName flow) = false ∧
+    (runHist (keyedByName flow) {} {} [.lookup ⟨0, 2, [some ⟨1, 1, 1⟩]⟩, .lookup ⟨0, 2, [some ⟨2, 2, 1⟩]⟩]).map (fun e => e.2.2.ret) =
+      [(some ⟨0, ⟨1, 1, 1⟩, 0⟩, some ⟨1, 1, 1⟩), (some ⟨0, ⟨1, 1, 1⟩, 0⟩, some ⟨2, 2, 1⟩)] := by decide
+
+end RequestPath
 
 end MosnVerif.Props.C05
